@@ -1,0 +1,104 @@
+//go:build verif
+
+package store
+
+// Contracts checked by /verif (gvc). This file contains comments only and is compiled only with -tags verif.
+//
+// Abstract state ("model fields") of the ledger store interfaces. Interface methods are specified over these; callers are
+// verified against these contracts, implementations against them where a representation clause exists.
+
+// ---- store.Account: the state of one account chain (confirmed + unconfirmed blocks up to a given block) ---------------
+//@ model Account address arr            // the account's address
+//@ model Account frontierHeight int     // height of the last block of this view of the account chain (0 = empty)
+//@ model Account frontierHash arr       // hash of that block
+//@ model Account blockAt map[int]int    // height -> canonical *nom.AccountBlock object (0 = none)
+//@ model Account chainPlasma int        // cumulative fused plasma spent by the blocks of this view
+//@ model Account received map[arr]bool  // send-block hashes already received by this account
+//@ model Account balance map[arr]int    // token standard -> balance
+//@ model Account seqFront int           // number of inbox entries already consumed (contracts)
+
+// ---- store.Momentum: the ledger as of one momentum -----------------------------------------------------------------
+//@ model Momentum chainId int
+//@ model Momentum idHeight int                 // height of the momentum this store is the state of
+//@ model Momentum idHash arr
+//@ model Momentum frontierMomentum int         // canonical *nom.Momentum object of that momentum
+//@ model Momentum blockByHash map[arr]int      // confirmed account blocks by hash -> canonical *nom.AccountBlock (0 = unknown)
+//@ model Momentum confirmationHeight map[arr]int // account-block hash -> height of the momentum that confirmed it
+//@ model Momentum committedPlasma map[arr]int  // address -> chain plasma of the confirmed account chain
+//@ model Momentum fusedAmount map[arr]int      // address -> QSR fused for that beneficiary
+//@ model Momentum mailboxOf map[arr]int        // address -> the contract inbox object
+
+// ---- store.AccountMailbox: the FIFO inbox of an embedded contract ---------------------------------------------------
+//@ model AccountMailbox address arr
+//@ model AccountMailbox seqSize int               // number of entries ever pushed
+//@ model AccountMailbox seqHash map[int]arr       // 1-based position -> header of the queued send block
+//@ model AccountMailbox seqHeight map[int]int
+//@ model AccountMailbox seqAddress map[int]arr
+
+//@ func Account.Address(self)
+//@   ensures result != nil && deref(result) == self.address
+//@   modifies nothing
+
+//@ func Account.Frontier(self) -> (b, err)
+//@   ensures err == nil && b != nil ==> b.Height == self.frontierHeight && b.Hash == self.frontierHash && b.Height >= 1
+//@   modifies nothing
+
+//@ func Account.ByHeight(self, height) -> (b, err)
+//@   ensures err == nil ==> int(b) == self.blockAt[height]
+//@   modifies nothing
+
+//@ func Account.GetChainPlasma(self) -> (v, err)
+//@   ensures err == nil ==> v != nil && val(v) == self.chainPlasma
+//@   ensures self.chainPlasma >= 0
+//@   modifies nothing
+
+//@ func Account.AddChainPlasma(self, add)
+//@   ensures result == nil ==> self.chainPlasma == old(self.chainPlasma) + add
+//@   ensures result != nil ==> self.chainPlasma == old(self.chainPlasma)
+//@   modifies self.chainPlasma
+
+//@ func Account.IsReceived(self, hash)
+//@   ensures result == self.received[hash]
+//@   modifies nothing
+
+//@ func Account.SequencerFront(self, mailbox) -> (h)
+//@   ensures self.seqFront == mailbox.seqSize ==> h == nil
+//@   ensures self.seqFront != mailbox.seqSize ==> h != nil ==> h.Hash == mailbox.seqHash[self.seqFront + 1] && h.Height == mailbox.seqHeight[self.seqFront + 1] && h.Address == mailbox.seqAddress[self.seqFront + 1]
+//@   modifies nothing
+
+//@ func Momentum.ChainIdentifier(self)
+//@   ensures result == self.chainId
+//@   modifies nothing
+
+//@ func Momentum.Identifier(self)
+//@   ensures result.Height == self.idHeight && result.Hash == self.idHash
+//@   modifies nothing
+
+//@ func Momentum.GetFrontierMomentum(self) -> (m, err)
+//@   ensures err == nil ==> m != nil && m.Height == self.idHeight && m.Hash == self.idHash
+//@   modifies nothing
+
+//@ func Momentum.GetAccountBlockByHash(self, hash) -> (b, err)
+//@   ensures err == nil ==> int(b) == self.blockByHash[hash]
+//@   ensures err == nil && b != nil ==> b.Hash == hash
+//@   modifies nothing
+
+//@ func Momentum.GetBlockConfirmationHeight(self, hash) -> (h, err)
+//@   ensures err == nil ==> h == self.confirmationHeight[hash]
+//@   modifies nothing
+
+//@ func Momentum.GetAccountMailbox(self, address)
+//@   ensures result != nil && int(result) == self.mailboxOf[address] && result.address == address
+//@   modifies nothing
+
+//@ func Momentum.GetAccountStore(self, address)
+//@   ensures result != nil && result.address == address && result.chainPlasma == self.committedPlasma[address]
+//@   modifies nothing
+
+//@ func Momentum.GetStakeBeneficialAmount(self, addr) -> (v, err)
+//@   ensures err == nil ==> v != nil && val(v) == self.fusedAmount[addr]
+//@   modifies nothing
+
+//@ func Account.ByHash(self, hash) -> (b, err)
+//@   ensures err == nil && b != nil ==> b.Hash == hash
+//@   modifies nothing
